@@ -246,9 +246,45 @@ def r6(ctx, facts):
     r.instance("every-kept-connection-is-watched", ok, "each connection kept by the pool must have its error receiver registered (wait_for_error) before it is stored", hb.span)
 
 
+def r7(ctx, facts):
+    r = ctx.rule("R7", "every keepalive round issues a keepalive request and awaits it", floor=3)
+    kb = facts.one(r"^scylla::network::connection::Connection::keepaliver::\{closure#0\}$")
+    ticks = [c for c in kb.calls_to("tokio::time::interval::Interval::tick") if c.bb in kb.reachable_after(c.bb)]
+    issue = [c for c in kb.calls() if (c[1].name or "").endswith("keepaliver::{closure#0}::issue_keepalive_query")]
+    issue = [c for _, c in issue]
+    if len(ticks) != 1 or len(issue) != 1:
+        raise AnchorLost("keepaliver: expected one Interval::tick inside the loop and one issue_keepalive_query call, found %d/%d" % (len(ticks), len(issue)))
+    tick, iss = ticks[0], issue[0]
+    r.instance("round-sends-keepalive", tick.bb not in kb.reachable_after(tick.bb, removed_nodes=[iss.bb]),
+               "every iteration of the keepalive loop (tick or hint) must reach issue_keepalive_query before waiting for the next tick: a round that is skipped leaves a silent peer undetected", tick.span)
+    # the issued future is awaited (directly or inside timeout) before the next round
+    polls = []
+    for c in kb.calls_to("core::future::future::Future::poll"):
+        locs, _, _ = backward_slice(kb, c.args[0])
+        if iss.dest[0] in locs:
+            polls.append(c)
+    r.instance("keepalive-awaited", bool(polls) and tick.bb not in kb.reachable_from(iss.target, removed_nodes=[c.bb for c in polls]),
+               "the future returned by issue_keepalive_query must be polled before the next round", iss.span)
+    # ...and only a Ready poll of it lets the loop continue
+    good = bool(polls)
+    df = df_of(kb, facts)
+    for c in polls:
+        sws = switch_on(kb, df, ("disc", (c.dest[0], ())))
+        if not sws:
+            good = False
+            continue
+        for sw in sws:
+            edges, other = switch_edges(kb, sw)
+            pend = edges.get(1, other)
+            # the Pending edge must come back to this poll (through the yield) before it can reach the next tick
+            if tick.bb in kb.reachable_from(pend, removed_nodes=[c.bb]):
+                good = False
+    r.instance("next-round-only-after-reply", good, "a Pending keepalive must be polled again, not abandoned for the next tick (the timeout/err exits are rule R5)", iss.span)
+
+
 def check(ctx):
     facts = ctx.facts("default")
-    for fn in (r1, r2_r5, r3, r4, r6):
+    for fn in (r1, r2_r5, r3, r4, r6, r7):
         try:
             fn(ctx, facts)
         except AnchorLost as ex:
